@@ -983,6 +983,10 @@ fn reference_run(sc: &mut Scratch, tree: &Tree, inv: &Inv, stats: &mut Stats) ->
     rinv.faults.clear();
     rinv.role = "fresh_reference".into();
     let refout = sc.refout();
+    // "an empty location": an existing, empty directory (run_invocation clears it first)
+    rinv.fresh_out = false;
+    sc.clear_dir(&refout);
+    let _ = std::fs::create_dir_all(&refout);
     let o = run_invocation(sc, tree, &rinv, &refout);
     stats.record(tree_digest(tree), tree.len(), &rinv, &o, 1, true);
     o
